@@ -8,7 +8,7 @@ from fractions import Fraction
 
 import numpy as np
 
-from . import scenes
+from . import scenes, env
 
 LEVELS = ('slices', 'groups', 'layers')
 
@@ -91,9 +91,17 @@ ABBR = {0: 'NCD', 1: 'FEW', 2: 'FEW', 3: 'SCT', 4: 'SCT', 5: 'BKN', 6: 'BKN', 7:
 RANK = {'FEW': 1, 'SCT': 3, 'BKN': 5, 'OVC': 8}
 
 
+_DEFAULTS = None
+
+
 def default_prms():
-    from ampycloud import dynamic
-    return dynamic.get_default_prms()
+    """The packaged defaults, read by the HARNESS from the YAML file (never through the code under test)."""
+    global _DEFAULTS
+    if _DEFAULTS is None:
+        from pathlib import Path
+        from ruamel.yaml import YAML
+        _DEFAULTS = YAML(typ='safe').load(Path(env.REPO_SRC) / 'ampycloud' / 'prms' / 'ampycloud_default_prms.yml')
+    return copy.deepcopy(_DEFAULTS)
 
 
 def effective(prms, key, sub=None):
